@@ -36,6 +36,8 @@ impl<'a> SimdBestFirstVisitor<u32, SimdAabb> for PointVisitor<'a> {
 }
 
 pub fn exec(func: &str, a: &mut Args) -> String {
+    if func.starts_with("composite2_") { return comp2::exec(func, a); }
+    if func.starts_with("composite_") { return comp::exec(func, a); }
     match func {
         "bf_point" => {
             let (q, cur, _) = c08::replay_cur(a, false);
@@ -56,7 +58,8 @@ pub fn exec(func: &str, a: &mut Args) -> String {
 }
 
 pub fn gen(r: &mut Rng, thorough: bool) -> Vec<(String, String)> {
-    let mut v = Vec::new();
+    let mut v = comp::gen(r, thorough);
+    v.extend(comp2::gen(r, thorough));
     let n = if thorough { 500 } else { 200 };
     for it in 0..n {
         let lat = it % 2 == 0;
@@ -65,4 +68,635 @@ pub fn gen(r: &mut Rng, thorough: bool) -> Vec<(String, String)> {
         }
     }
     v
+}
+
+
+/// Composite-shape queries against the brute-force reduction over the parts (oracle-only family `composite_*`):
+/// every function prints `<answer of the real composite query> ; <reduction of the SAME real per-part query over all parts>`.
+/// The per-part calls are made exactly as the composite visitors make them (`part_pos.inv_mul(pos12)` …), so the two
+/// answers agree up to the accuracy of the per-part routine; they are compared by value (cost), never by part id.
+pub mod comp {
+    use crate::util::*;
+    use super::super::c03::{self, Sh};
+    use crate::p3::bounding_volume::Aabb;
+    use crate::p3::na::{self, DMatrix};
+    use crate::p3::query::{self, ClosestPoints, DefaultQueryDispatcher, PointQuery, QueryDispatcher, Ray, RayCast, ShapeCastOptions};
+    use crate::p3::shape::{Compound, HeightField, Polyline, Shape, SharedShape, TriMesh};
+    use crate::p3::utils::IsometryOpt;
+    use d3::{Isometry, Point, Real, Vector};
+
+    // ---------------------------------------------------------------- composites on the wire
+    #[derive(Clone)]
+    pub enum Co {
+        Compound(Vec<(Sh, Isometry<Real>)>),
+        TriMesh(Vec<Point<Real>>, Vec<[u32; 3]>),
+        Polyline(Vec<Point<Real>>),
+        HeightField(usize, usize, Vec<f64>, Vector<Real>),
+    }
+    pub fn co(a: &mut Args) -> Co {
+        match a.tok() {
+            "compound" => { let n = a.u(); Co::Compound((0..n).map(|_| { let s = c03::sh(a); let m = d3::iso(a); (s, m) }).collect()) }
+            "trimesh" => { let nv = a.u(); let vs = (0..nv).map(|_| d3::p(a)).collect(); let nt = a.u();
+                           let is = (0..nt).map(|_| [a.u() as u32, a.u() as u32, a.u() as u32]).collect(); Co::TriMesh(vs, is) }
+            "polyline" => { let nv = a.u(); Co::Polyline((0..nv).map(|_| d3::p(a)).collect()) }
+            "heightfield" => { let nr = a.u(); let nc = a.u(); let hs = (0..nr * nc).map(|_| a.f()).collect(); Co::HeightField(nr, nc, hs, d3::v(a)) }
+            k => panic!("composite kind {}", k),
+        }
+    }
+    pub fn hco(c: &Co) -> String {
+        match c {
+            Co::Compound(ps) => format!("compound {} {}", ps.len(), ps.iter().map(|(s, m)| format!("{} {}", c03::hsh(s), d3::hiso(m))).collect::<Vec<_>>().join(" ")),
+            Co::TriMesh(vs, is) => format!("trimesh {} {} {} {}", vs.len(), vs.iter().map(d3::hp).collect::<Vec<_>>().join(" "), is.len(),
+                                           is.iter().map(|t| format!("{} {} {}", t[0], t[1], t[2])).collect::<Vec<_>>().join(" ")),
+            Co::Polyline(vs) => format!("polyline {} {}", vs.len(), vs.iter().map(d3::hp).collect::<Vec<_>>().join(" ")),
+            Co::HeightField(nr, nc, hs, sc) => format!("heightfield {} {} {} {}", nr, nc, hxs(hs.iter()), d3::hv(sc)),
+        }
+    }
+    pub fn dynco(c: &Co) -> Box<dyn Shape> {
+        match c {
+            Co::Compound(ps) => Box::new(Compound::new(ps.iter().map(|(s, m)| (*m, SharedShape(c03::dynsh(s).into()))).collect())),
+            Co::TriMesh(vs, is) => Box::new(TriMesh::new(vs.clone(), is.clone()).expect("trimesh")),
+            Co::Polyline(vs) => Box::new(Polyline::new(vs.clone(), None)),
+            Co::HeightField(nr, nc, hs, sc) => Box::new(HeightField::new(DMatrix::from_column_slice(*nr, *nc, hs), *sc)),
+        }
+    }
+
+    /// the parts `(pose in the composite's frame, shape)`, independently of the composite's acceleration structure
+    fn parts(c: &Co, g: &dyn Shape) -> Vec<(Option<Isometry<Real>>, Box<dyn Shape>)> {
+        match c {
+            Co::Compound(ps) => ps.iter().map(|(s, m)| (Some(*m), c03::dynsh(s))).collect(),
+            Co::TriMesh(..) => g.as_trimesh().unwrap().triangles().map(|t| (None, Box::new(t) as Box<dyn Shape>)).collect(),
+            Co::Polyline(..) => g.as_polyline().unwrap().segments().map(|t| (None, Box::new(t) as Box<dyn Shape>)).collect(),
+            Co::HeightField(..) => g.as_heightfield().unwrap().triangles().map(|t| (None, Box::new(t) as Box<dyn Shape>)).collect(),
+        }
+    }
+
+    fn fo(x: Option<f64>) -> String { match x { Some(v) => format!("v {}", ff(v)), None => "none".into() } }
+    fn minf(xs: impl Iterator<Item = f64>) -> Option<f64> { xs.fold(None, |m, x| Some(match m { None => x, Some(y) => if x < y { x } else { y } })) }
+    fn fcp(c: &ClosestPoints, pos12: &Isometry<Real>) -> (u8, f64) {
+        match c { ClosestPoints::Intersecting => (0, 0.0), ClosestPoints::WithinMargin(p1, p2) => (1, na::distance(p1, &(pos12 * p2))), ClosestPoints::Disjoint => (2, 0.0) }
+    }
+    fn fcps(k: (u8, f64)) -> String { match k.0 { 0 => "I".into(), 1 => format!("v {}", ff(k.1)), _ => "D".into() } }
+
+    pub fn exec(func: &str, a: &mut Args) -> String {
+        let c = co(a); let pc = d3::iso(a);
+        let gc = dynco(&c);
+        let ps = parts(&c, &*gc);
+        let d = DefaultQueryDispatcher;
+        match func {
+            // ---- pairwise queries: composite, pose, other shape, pose, order flag (1 = composite first)
+            "composite_distance" | "composite_it" | "composite_cp" | "composite_contact" | "composite_cast" => {
+                let x = c03::sh(a); let px = d3::iso(a); let first = a.b();
+                let gx = c03::dynsh(&x);
+                // the composite is always `c`; `pos_cx` = pose of X in the composite's frame, computed as the entry points do
+                let (p1, g1, p2, g2): (&Isometry<Real>, &dyn Shape, &Isometry<Real>, &dyn Shape) =
+                    if first { (&pc, &*gc, &px, &*gx) } else { (&px, &*gx, &pc, &*gc) };
+                let pos12 = p1.inv_mul(p2);
+                let pos_cx = if first { pos12 } else { pos12.inverse() };
+                match func {
+                    "composite_distance" => {
+                        let got = match query::distance(p1, g1, p2, g2) { Ok(v) => v, Err(_) => return "unsupported ; unsupported".into() };
+                        let bf = minf(ps.iter().filter_map(|(pp, s)| d.distance(&pp.as_ref().inv_mul(&pos_cx), &**s, &*gx).ok()));
+                        format!("v {} ; {}", ff(got), fo(bf))
+                    }
+                    "composite_it" => {
+                        let got = match query::intersection_test(p1, g1, p2, g2) { Ok(v) => v, Err(_) => return "unsupported ; unsupported".into() };
+                        let bf = ps.iter().any(|(pp, s)| d.intersection_test(&pp.as_ref().inv_mul(&pos_cx), &**s, &*gx).unwrap_or(false));
+                        // qualifier: signed gap of the closest / deepest part (a verdict may legitimately differ only when the shapes merely touch)
+                        let tie = minf(ps.iter().filter_map(|(pp, s)| d.contact(&pp.as_ref().inv_mul(&pos_cx), &**s, &*gx, 1.0).ok().flatten().map(|c| c.dist)));
+                        // the per-part verdicts must agree among themselves (C02); if they do not, say so instead of blaming the reduction
+                        let dmin = minf(ps.iter().filter_map(|(pp, s)| d.distance(&pp.as_ref().inv_mul(&pos_cx), &**s, &*gx).ok()));
+                        if bf && !got && dmin.map(|x| x > 1.0e-9).unwrap_or(false) { return format!("{} ; X ; tie {}", b(got), fo(dmin)); }
+                        format!("{} ; {} ; tie {}", b(got), b(bf), fo(tie))
+                    }
+                    "composite_cp" => {
+                        let margin = a.f();
+                        let got = match query::closest_points(p1, g1, p2, g2, margin) { Ok(v) => v, Err(_) => return "unsupported ; unsupported".into() };
+                        // the entry point returns world-space points
+                        let gk = fcp(&got, &Isometry::identity());
+                        let mut best: (u8, f64) = (2, 0.0);
+                        for (pp, s) in &ps {
+                            let m = pp.as_ref().inv_mul(&pos_cx);
+                            if let Ok(r) = d.closest_points(&m, &**s, &*gx, margin) {
+                                let k = fcp(&r, &m);
+                                if k.0 == 0 { best = (0, 0.0); break; }
+                                if k.0 == 1 && (best.0 == 2 || k.1 < best.1) { best = k; }
+                            }
+                        }
+                        format!("{} ; {} ; lim {}", fcps(gk), fcps(best), ff(margin))
+                    }
+                    "composite_contact" => {
+                        let pred = a.f();
+                        let got = match query::contact(p1, g1, p2, g2, pred) { Ok(v) => v, Err(_) => return "unsupported ; unsupported".into() };
+                        let bf = minf(ps.iter().filter_map(|(pp, s)| d.contact(&pp.as_ref().inv_mul(&pos_cx), &**s, &*gx, pred).ok().flatten().map(|c| c.dist)));
+                        format!("{} ; {} ; lim {}", fo(got.map(|c| c.dist)), fo(bf), ff(pred))
+                    }
+                    _ => {
+                        let vel = d3::v(a); let max_toi = a.f(); let target = a.f(); let stop = a.b();
+                        let opts = ShapeCastOptions { max_time_of_impact: max_toi, target_distance: target, stop_at_penetration: stop, compute_impact_geometry_on_penetration: true };
+                        // relative velocity of shape 2 w.r.t. shape 1 expressed in the frame of shape 1
+                        let vel12 = vel;
+                        let got = match d.cast_shapes(&pos12, &vel12, g1, g2, opts) { Ok(v) => v, Err(_) => return "unsupported ; unsupported".into() };
+                        let vel_cx = if first { vel12 } else { -pos12.inverse_transform_vector(&vel12) };
+                        let mut pi = 0;
+                        let bf = minf(ps.iter().filter_map(|(pp, s)| {
+                            let r = match pp { Some(pp) => d.cast_shapes(&pp.inv_mul(&pos_cx), &pp.inverse_transform_vector(&vel_cx), &**s, &*gx, opts),
+                                               None => d.cast_shapes(&pos_cx, &vel_cx, &**s, &*gx, opts) };
+                            if std::env::var("VERIF_DBG").is_ok() { if let Ok(Some(h)) = &r { eprintln!("part {} {:?} toi {}", pi, s.as_triangle(), h.time_of_impact); } }
+                            pi += 1;
+                            r.ok().flatten().map(|h| h.time_of_impact) }));
+                        if std::env::var("VERIF_DBG").is_ok() { eprintln!("pos_cx {:?} vel_cx {:?} aabb_x {:?} aabb_c {:?}", pos_cx, vel_cx, gx.compute_aabb(&pos_cx), gc.compute_local_aabb()); }
+                        format!("{} ; {} ; lim {}", fo(got.map(|h| h.time_of_impact)), fo(bf), ff(max_toi))
+                    }
+                }
+            }
+            "composite_ray" => {
+                let ray = Ray::new(d3::p(a), d3::v(a)); let max_toi = a.f(); let solid = a.b();
+                let got = gc.cast_ray(&pc, &ray, max_toi, solid);
+                let got_n = gc.cast_ray_and_get_normal(&pc, &ray, max_toi, solid).map(|i| i.time_of_impact);
+                let ls = ray.inverse_transform_by(&pc);
+                let bf = minf(ps.iter().filter_map(|(pp, s)| match pp { Some(pp) => s.cast_ray(pp, &ls, max_toi, solid), None => s.cast_local_ray(&ls, max_toi, solid) }));
+                format!("{} {} ; {} {} ; lim {}", fo(got), fo(got_n), fo(bf), fo(bf), ff(max_toi))
+            }
+            "composite_point" => {
+                let pt = d3::p(a); let solid = a.b();
+                let lp = pc.inverse_transform_point(&pt);
+                let got = gc.project_local_point(&lp, solid);
+                let gd = na::distance(&lp, &got.point);
+                let gdist = gc.distance_to_local_point(&lp, solid);
+                let contains = gc.contains_local_point(&lp);
+                let bf = minf(ps.iter().map(|(pp, s)| { let pr = match pp { Some(pp) => s.project_point(pp, &lp, solid), None => s.project_local_point(&lp, solid) }; na::distance(&lp, &pr.point) }));
+                let bc = ps.iter().any(|(pp, s)| match pp { Some(pp) => s.contains_point(pp, &lp), None => s.contains_local_point(&lp) });
+                // HeightField::contains_local_point is documented to be `false`; TriMesh/Polyline parts have no interior
+                let cmp_contains = matches!(c, Co::Compound(_));
+                let bd = minf(ps.iter().map(|(pp, s)| { let pr = match pp { Some(pp) => s.project_point(pp, &lp, false), None => s.project_local_point(&lp, false) }; na::distance(&lp, &pr.point) }));
+                format!("v {} v {} {} ; {} {} {} ; tie {}", ff(gd), ff(gdist.abs()), if cmp_contains { b(contains) } else { "-" }, fo(bf), fo(bf), if cmp_contains { b(bc) } else { "-" }, fo(bd))
+            }
+            "composite_aabb" => {
+                let bx = Aabb::new(d3::p(a), d3::p(a));
+                let mut got: Vec<u32> = Vec::new();
+                match &c {
+                    Co::HeightField(..) => {
+                        // contract: every triangle whose box overlaps the query box is reported (a superset is allowed;
+                        // boxes that merely touch the query box are not demanded)
+                        let hf = gc.as_heightfield().unwrap();
+                        hf.map_elements_in_local_aabb(&bx, &mut |i, _t| { got.push(i); });
+                        let ntri = 2 * (hf.nrows() * hf.ncols()) as u32;
+                        let strict = |t: &Aabb| (0..3).all(|k| t.mins[k] < bx.maxs[k] && bx.mins[k] < t.maxs[k] || (t.mins[k] == t.maxs[k] && bx.mins[k] < t.mins[k] && t.mins[k] < bx.maxs[k]));
+                        let missed = (0..ntri).filter(|id| match hf.triangle_at_id(*id) { Some(t) => strict(&t.local_aabb()) && !got.contains(id), None => false }).count();
+                        return format!("sup 0 ; sup {}", missed);
+                    }
+                    _ => {
+                        let comp = gc.as_composite_shape().unwrap();
+                        comp.qbvh().intersect_aabb(&bx, &mut got);
+                        got.sort();
+                        let mut bf: Vec<u32> = ps.iter().enumerate().filter(|(_, (pp, s))| match pp { Some(pp) => s.compute_aabb(pp), None => s.compute_local_aabb() }.intersects(&bx)).map(|(i, _)| i as u32).collect();
+                        bf.sort();
+                        format!("ids {} ; ids {}", got.iter().map(|x| x.to_string()).collect::<Vec<_>>().join(","), bf.iter().map(|x| x.to_string()).collect::<Vec<_>>().join(","))
+                    }
+                }
+            }
+            _ => "nofn".into(),
+        }
+    }
+    use crate::p3::bounding_volume::BoundingVolume;
+    /// index (in `triangles()` order) of a triangle handed out by `map_elements_in_local_aabb`, by value
+    fn tri_key(t: &crate::p3::shape::Triangle, ps: &[(Option<Isometry<Real>>, Box<dyn Shape>)]) -> u32 {
+        for (i, (_, s)) in ps.iter().enumerate() {
+            let u = s.as_triangle().unwrap();
+            if u.a == t.a && u.b == t.b && u.c == t.c { return i as u32; }
+        }
+        u32::MAX
+    }
+
+    // ---------------------------------------------------------------- generators
+    fn unit_parts(r: &mut Rng, lat: bool, kind: u64) -> Sh {
+        match kind {
+            0 => Sh::Cuboid(Vector::new(0.5, 0.5, 0.5)),
+            1 => Sh::Ball(0.5),
+            2 => Sh::Capsule(Point::new(-0.25, 0.0, 0.0), Point::new(0.25, 0.0, 0.0), 0.25),
+            3 => Sh::Cuboid(Vector::new(r.pos_extent(lat).min(1.0), 0.25, 0.5)),
+            _ => c03::gen_shape(r, lat, &[0, 1, 3]),
+        }
+    }
+    /// rows / grids of parts with rotated part poses, duplicated and degenerate parts
+    fn gen_compound(r: &mut Rng, lat: bool) -> Co {
+        let n = 5 + r.below(36) as usize;
+        let kind = r.below(6);
+        let layout = r.below(4);
+        let pitch = *r.pick(&[1.5, 2.0, 3.0]);
+        let mut ps = Vec::new();
+        for k in 0..n {
+            let t = match layout {
+                0 => Vector::new(pitch * k as f64, 0.0, 0.0),
+                1 => Vector::new(pitch * (k % 4) as f64, pitch * (k / 4) as f64, 0.0),
+                2 => Vector::new(pitch * (k % 3) as f64, pitch * ((k / 3) % 3) as f64, pitch * (k / 9) as f64),
+                _ => d3::gen_v(r, lat, 10.0),
+            };
+            let ql = lat || r.bool(); let q = d3::gen_quat(r, ql);
+            let m = Isometry::from_parts(na::Translation3::from(t), na::Unit::new_unchecked(na::Quaternion::new(q[3], q[0], q[1], q[2])));
+            let kk = if kind == 5 { r.below(5) } else { kind }; let s = unit_parts(r, lat, kk);
+            ps.push((s, m));
+            if r.below(12) == 0 { let last = ps.last().unwrap().clone(); ps.push(last); }           // duplicated part
+            if r.below(15) == 0 { ps.push((Sh::Segment(Point::new(0.0, 0.0, 0.0), Point::new(0.5, 0.0, 0.0)), m)); } // flat part
+        }
+        Co::Compound(ps)
+    }
+    fn gen_grid_mesh(r: &mut Rng, lat: bool) -> Co {
+        let nx = 2 + r.below(5) as usize; let ny = 2 + r.below(5) as usize;
+        let mut vs = Vec::new();
+        for j in 0..=ny { for i in 0..=nx {
+            let h = if r.below(3) == 0 { 0.0 } else if lat { r.range(-2, 2) as f64 * 0.5 } else { r.uniform(-1.0, 1.0) };
+            vs.push(Point::new(i as f64 * 1.5, h, j as f64 * 1.5));
+        } }
+        let mut is = Vec::new();
+        let w = (nx + 1) as u32;
+        for j in 0..ny as u32 { for i in 0..nx as u32 {
+            let a = j * w + i;
+            if (i + j) % 2 == 0 { is.push([a, a + w, a + 1]); is.push([a + 1, a + w, a + w + 1]); }
+            else { is.push([a, a + w, a + w + 1]); is.push([a, a + w + 1, a + 1]); }
+        } }
+        Co::TriMesh(vs, is)
+    }
+    fn gen_primitive_mesh(r: &mut Rng, lat: bool) -> Co {
+        use crate::p3::shape::{Ball, Cuboid};
+        let (vs, is) = if r.bool() { Cuboid::new(d3::gen_he(r, lat)).to_trimesh() } else { Ball::new(r.pos_extent(true)).to_trimesh(4 + r.below(4) as u32, 4 + r.below(4) as u32) };
+        Co::TriMesh(vs, is)
+    }
+    fn gen_polyline(r: &mut Rng, lat: bool) -> Co {
+        let n = 6 + r.below(30) as usize;
+        let mut vs = Vec::new();
+        let mut p = Point::new(0.0, 0.0, 0.0);
+        for k in 0..n {
+            vs.push(p);
+            let step = if lat { Vector::new(1.0, *r.pick(&[-1.0, 0.0, 0.5, 1.0]), *r.pick(&[-0.5, 0.0, 0.5])) } else { Vector::new(r.uniform(0.2, 1.5), r.uniform(-1.0, 1.0), r.uniform(-1.0, 1.0)) };
+            p += step * if k % 7 == 6 { 3.0 } else { 1.0 };
+        }
+        Co::Polyline(vs)
+    }
+    fn gen_heightfield(r: &mut Rng, lat: bool) -> Co {
+        let nr = 2 + r.below(6) as usize; let nc = 2 + r.below(6) as usize;
+        let flat = r.below(4) == 0;
+        let hs = (0..nr * nc).map(|_| if flat { 0.5 } else if lat { r.range(-4, 4) as f64 * 0.25 } else { r.uniform(-1.0, 1.0) }).collect();
+        let sc = if lat { Vector::new(*r.pick(&[2.0, 4.0, 8.0]), *r.pick(&[1.0, 2.0]), *r.pick(&[2.0, 4.0, 8.0])) } else { Vector::new(r.uniform(2.0, 10.0), r.uniform(0.5, 3.0), r.uniform(2.0, 10.0)) };
+        Co::HeightField(nr, nc, hs, sc)
+    }
+    fn local_box(c: &Co) -> Aabb { dynco(c).compute_local_aabb() }
+
+    /// the other shape: compact ones and long "bars" that stick out of the BVH node boxes on either side
+    fn gen_other(r: &mut Rng, lat: bool) -> Sh {
+        match r.below(7) {
+            0 => Sh::Ball(r.pos_extent(lat).min(3.0)),
+            1 => Sh::Cuboid(Vector::new(*r.pick(&[0.6, 1.5, 3.0, 6.0]), 0.6, 0.6)),                      // bar along x
+            2 => { let mut he = Vector::new(0.6, 0.6, 0.6); he[r.below(3) as usize] = *r.pick(&[1.5, 3.0, 6.0]); Sh::Cuboid(he) }
+            3 => { let l = *r.pick(&[0.5, 2.0, 5.0]); let ax = r.below(3) as usize; let mut p = Point::origin(); p[ax] = l; Sh::Capsule(Point::from(-p.coords), p, *r.pick(&[0.25, 0.5])) }
+            4 => c03::gen_shape(r, lat, &[4]),
+            5 => Sh::Cuboid(d3::gen_he(r, lat)),
+            _ => c03::gen_shape(r, lat, &[0, 1, 3]),
+        }
+    }
+    /// pose of the other shape in the composite's frame: near a random part / cell, shifted by lattice gaps towards either
+    /// side of every axis (overlapping, touching, separated), sometimes far away
+    fn gen_rel_pose(r: &mut Rng, lat: bool, c: &Co) -> Isometry<Real> {
+        let bx = local_box(c);
+        let anchor = match c {
+            Co::Compound(ps) => ps[r.below(ps.len() as u64) as usize].1.translation.vector,
+            Co::TriMesh(vs, _) | Co::Polyline(vs) => vs[r.below(vs.len() as u64) as usize].coords,
+            Co::HeightField(..) => Vector::new(r.uniform(bx.mins.x, bx.maxs.x), r.uniform(bx.mins.y, bx.maxs.y), r.uniform(bx.mins.z, bx.maxs.z)),
+        };
+        let off = if lat { Vector::new(*r.pick(&[-3.0, -1.5, -0.9, -0.5, 0.0, 0.1, 0.5, 0.9, 1.5, 3.0]), *r.pick(&[-1.5, -0.5, 0.0, 0.1, 0.5, 1.5]), *r.pick(&[-1.5, -0.1, 0.0, 0.5, 1.5])) }
+                  else { d3::gen_v(r, false, 3.0) };
+        let far = if r.below(10) == 0 { d3::gen_v(r, lat, 30.0) } else { Vector::zeros() };
+        let q = if r.below(3) == 0 { [0.0, 0.0, 0.0, 1.0] } else { d3::gen_quat(r, lat) };
+        Isometry::from_parts(na::Translation3::from(anchor + off + far), na::Unit::new_unchecked(na::Quaternion::new(q[3], q[0], q[1], q[2])))
+    }
+
+    pub fn gen(r: &mut Rng, thorough: bool) -> Vec<(String, String)> {
+        let mut v = Vec::new();
+        let n = if thorough { 1200 } else { 150 };
+        for it in 0..n {
+            let lat = it % 2 == 0;
+            let c = match it % 8 { 0 | 1 | 2 | 3 => gen_compound(r, lat), 4 => gen_grid_mesh(r, lat), 5 => gen_primitive_mesh(r, lat), 6 => gen_polyline(r, lat), _ => gen_heightfield(r, lat) };
+            let is_hf = matches!(c, Co::HeightField(..));
+            let world = if r.below(3) == 0 { Isometry::identity() } else { d3::gen_iso(r, lat, 20.0) };
+            let hc = format!("{} {}", hco(&c), d3::hiso(&world));
+            for _ in 0..3 {
+                let x = gen_other(r, lat);
+                let rel = gen_rel_pose(r, lat, &c);
+                let px = world * rel;
+                let hx_ = format!("{} {}", c03::hsh(&x), d3::hiso(&px));
+                for first in [true, false] {
+                    let base = format!("{} {} {}", hc, hx_, b(first));
+                    if !is_hf {
+                        v.push(("composite_distance".into(), base.clone()));
+                        v.push(("composite_it".into(), base.clone()));
+                        v.push(("composite_cp".into(), format!("{} {}", base, hx(c03::gen_param(r, lat) + if r.bool() { 5.0 } else { 0.0 }))));
+                        v.push(("composite_contact".into(), format!("{} {}", base, hx(c03::gen_param(r, lat)))));
+                    }
+                    // cast: velocity towards / across the composite, or random
+                    let vel = if r.bool() && rel.translation.vector.norm() > 1e-3 { -rel.translation.vector.normalize() * r.pos_extent(lat) + d3::gen_v(r, lat, 0.5) } else { d3::gen_v(r, lat, 3.0) };
+                    // heightfields: also purely horizontal and axis-aligned motions (the cell walk has a branch per axis)
+                    let vel = if is_hf && r.below(3) == 0 { let mut w = vel; w.y = 0.0; if r.bool() { w.z = 0.0; } if w.norm() < 1e-3 { w.x = 1.0; } w } else { vel };
+                    let vel = if first { vel } else { -(rel.inverse_transform_vector(&vel)) };
+                    let max_toi = if r.below(4) == 0 { *r.pick(&[0.5, 2.0]) } else { 1.0e3 };
+                    let target = if r.below(3) == 0 { *r.pick(&[0.25, 0.5]) } else { 0.0 };
+                    v.push(("composite_cast".into(), format!("{} {} {} {} {}", base, d3::hv(&vel), hx(max_toi), hx(target), b(r.bool()))));
+                }
+            }
+            let bx = local_box(&c);
+            for _ in 0..4 {
+                // rays: from outside towards a point of the composite's box, from inside, parallel to the axes, non-unit directions
+                let tgt = Point::new(r.uniform(bx.mins.x, bx.maxs.x), r.uniform(bx.mins.y, bx.maxs.y), r.uniform(bx.mins.z, bx.maxs.z));
+                let org = if r.below(4) == 0 { tgt } else { tgt + d3::gen_v(r, lat, 8.0) };
+                let dir = if r.below(4) == 0 { let mut d = Vector::zeros(); d[r.below(3) as usize] = if r.bool() { 1.0 } else { -2.0 }; d } else { (tgt - org) * *r.pick(&[0.5, 1.0, 3.0]) + d3::gen_v(r, lat, 0.25) };
+                if dir.norm() < 1e-6 { continue; }
+                let ray_o = world * org; let ray_d = world * dir;
+                let max_toi = if r.below(4) == 0 { *r.pick(&[0.25, 1.0]) } else { 1.0e3 };
+                v.push(("composite_ray".into(), format!("{} {} {} {} {}", hc, d3::hp(&ray_o), d3::hv(&ray_d), hx(max_toi), b(r.bool()))));
+                let pt = if r.bool() { tgt } else { tgt + d3::gen_v(r, lat, 4.0) };
+                v.push(("composite_point".into(), format!("{} {} {}", hc, d3::hp(&(world * pt)), b(r.bool()))));
+                let he = d3::gen_he(r, lat) * *r.pick(&[0.1, 0.5, 1.0]);
+                let cq = if r.bool() { tgt } else { tgt + d3::gen_v(r, lat, 4.0) };
+                v.push(("composite_aabb".into(), format!("{} {} {}", hc, d3::hp(&(cq - he)), d3::hp(&(cq + he)))));
+            }
+        }
+        v
+    }
+}
+
+
+/// the same family in 2-D (`composite2_*`): Compound, Polyline and HeightField of `parry2d-f64`
+pub mod comp2 {
+    use crate::util::*;
+    use crate::p2::na::{self, DVector};
+    use crate::p2::query::{self, ClosestPoints, DefaultQueryDispatcher, PointQuery, QueryDispatcher, Ray, RayCast, ShapeCastOptions};
+    use crate::p2::shape::{Ball, Capsule, Compound, Cuboid, HeightField, Polyline, Segment, Shape, SharedShape, Triangle};
+    use crate::p2::utils::IsometryOpt;
+    use d2::{Isometry, Point, Real, Vector};
+
+    #[derive(Clone)]
+    pub enum Sh2 { Ball(f64), Cuboid(Vector<Real>), Capsule(Point<Real>, Point<Real>, f64), Triangle(Point<Real>, Point<Real>, Point<Real>), Segment(Point<Real>, Point<Real>) }
+    fn sh(a: &mut Args) -> Sh2 {
+        match a.tok() {
+            "ball" => Sh2::Ball(a.f()),
+            "cuboid" => Sh2::Cuboid(d2::v(a)),
+            "capsule" => { let p = d2::p(a); let q = d2::p(a); Sh2::Capsule(p, q, a.f()) }
+            "triangle" => { let p = d2::p(a); let q = d2::p(a); let r = d2::p(a); Sh2::Triangle(p, q, r) }
+            "segment" => { let p = d2::p(a); let q = d2::p(a); Sh2::Segment(p, q) }
+            k => panic!("shape kind {}", k),
+        }
+    }
+    fn hsh(s: &Sh2) -> String {
+        match s {
+            Sh2::Ball(r) => format!("ball {}", hx(*r)),
+            Sh2::Cuboid(he) => format!("cuboid {}", d2::hv(he)),
+            Sh2::Capsule(p, q, r) => format!("capsule {} {} {}", d2::hp(p), d2::hp(q), hx(*r)),
+            Sh2::Triangle(p, q, r) => format!("triangle {} {} {}", d2::hp(p), d2::hp(q), d2::hp(r)),
+            Sh2::Segment(p, q) => format!("segment {} {}", d2::hp(p), d2::hp(q)),
+        }
+    }
+    fn dynsh(s: &Sh2) -> Box<dyn Shape> {
+        match s {
+            Sh2::Ball(r) => Box::new(Ball::new(*r)),
+            Sh2::Cuboid(he) => Box::new(Cuboid::new(*he)),
+            Sh2::Capsule(p, q, r) => Box::new(Capsule::new(*p, *q, *r)),
+            Sh2::Triangle(p, q, r) => Box::new(Triangle::new(*p, *q, *r)),
+            Sh2::Segment(p, q) => Box::new(Segment::new(*p, *q)),
+        }
+    }
+    #[derive(Clone)]
+    pub enum Co2 { Compound(Vec<(Sh2, Isometry<Real>)>), Polyline(Vec<Point<Real>>), HeightField(Vec<f64>, Vector<Real>) }
+    fn co(a: &mut Args) -> Co2 {
+        match a.tok() {
+            "compound" => { let n = a.u(); Co2::Compound((0..n).map(|_| { let s = sh(a); let m = d2::iso(a); (s, m) }).collect()) }
+            "polyline" => { let nv = a.u(); Co2::Polyline((0..nv).map(|_| d2::p(a)).collect()) }
+            "heightfield" => { let n = a.u(); let hs = (0..n).map(|_| a.f()).collect(); Co2::HeightField(hs, d2::v(a)) }
+            k => panic!("composite kind {}", k),
+        }
+    }
+    fn hco(c: &Co2) -> String {
+        match c {
+            Co2::Compound(ps) => format!("compound {} {}", ps.len(), ps.iter().map(|(s, m)| format!("{} {}", hsh(s), d2::hiso(m))).collect::<Vec<_>>().join(" ")),
+            Co2::Polyline(vs) => format!("polyline {} {}", vs.len(), vs.iter().map(d2::hp).collect::<Vec<_>>().join(" ")),
+            Co2::HeightField(hs, sc) => format!("heightfield {} {} {}", hs.len(), hxs(hs.iter()), d2::hv(sc)),
+        }
+    }
+    fn dynco(c: &Co2) -> Box<dyn Shape> {
+        match c {
+            Co2::Compound(ps) => Box::new(Compound::new(ps.iter().map(|(s, m)| (*m, SharedShape(dynsh(s).into()))).collect())),
+            Co2::Polyline(vs) => Box::new(Polyline::new(vs.clone(), None)),
+            Co2::HeightField(hs, sc) => Box::new(HeightField::new(DVector::from_column_slice(hs), *sc)),
+        }
+    }
+    fn parts(c: &Co2, g: &dyn Shape) -> Vec<(Option<Isometry<Real>>, Box<dyn Shape>)> {
+        match c {
+            Co2::Compound(ps) => ps.iter().map(|(s, m)| (Some(*m), dynsh(s))).collect(),
+            Co2::Polyline(..) => g.as_polyline().unwrap().segments().map(|t| (None, Box::new(t) as Box<dyn Shape>)).collect(),
+            Co2::HeightField(..) => g.as_heightfield().unwrap().segments().map(|t| (None, Box::new(t) as Box<dyn Shape>)).collect(),
+        }
+    }
+    fn fo(x: Option<f64>) -> String { match x { Some(v) => format!("v {}", ff(v)), None => "none".into() } }
+    fn minf(xs: impl Iterator<Item = f64>) -> Option<f64> { xs.fold(None, |m, x| Some(match m { None => x, Some(y) => if x < y { x } else { y } })) }
+    fn fcp(c: &ClosestPoints, pos12: &Isometry<Real>) -> (u8, f64) {
+        match c { ClosestPoints::Intersecting => (0, 0.0), ClosestPoints::WithinMargin(p1, p2) => (1, na::distance(p1, &(pos12 * p2))), ClosestPoints::Disjoint => (2, 0.0) }
+    }
+    fn fcps(k: (u8, f64)) -> String { match k.0 { 0 => "I".into(), 1 => format!("v {}", ff(k.1)), _ => "D".into() } }
+
+    pub fn exec(func: &str, a: &mut Args) -> String {
+        let c = co(a); let pc = d2::iso(a);
+        let gc = dynco(&c);
+        let ps = parts(&c, &*gc);
+        let d = DefaultQueryDispatcher;
+        match func {
+            "composite2_distance" | "composite2_it" | "composite2_cp" | "composite2_contact" | "composite2_cast" => {
+                let x = sh(a); let px = d2::iso(a); let first = a.b();
+                let gx = dynsh(&x);
+                let (p1, g1, p2, g2): (&Isometry<Real>, &dyn Shape, &Isometry<Real>, &dyn Shape) =
+                    if first { (&pc, &*gc, &px, &*gx) } else { (&px, &*gx, &pc, &*gc) };
+                let pos12 = p1.inv_mul(p2);
+                let pos_cx = if first { pos12 } else { pos12.inverse() };
+                match func {
+                    "composite2_distance" => {
+                        let got = match query::distance(p1, g1, p2, g2) { Ok(v) => v, Err(_) => return "unsupported ; unsupported".into() };
+                        let bf = minf(ps.iter().filter_map(|(pp, s)| d.distance(&pp.as_ref().inv_mul(&pos_cx), &**s, &*gx).ok()));
+                        format!("v {} ; {}", ff(got), fo(bf))
+                    }
+                    "composite2_it" => {
+                        let got = match query::intersection_test(p1, g1, p2, g2) { Ok(v) => v, Err(_) => return "unsupported ; unsupported".into() };
+                        let bf = ps.iter().any(|(pp, s)| d.intersection_test(&pp.as_ref().inv_mul(&pos_cx), &**s, &*gx).unwrap_or(false));
+                        let tie = minf(ps.iter().filter_map(|(pp, s)| d.contact(&pp.as_ref().inv_mul(&pos_cx), &**s, &*gx, 1.0).ok().flatten().map(|c| c.dist)));
+                        if std::env::var("VERIF_DBG").is_ok() { for (pp, s) in &ps { let m = pp.as_ref().inv_mul(&pos_cx);
+                            eprintln!("part it={:?} dist={:?} contact={:?} m={:?}", d.intersection_test(&m, &**s, &*gx), d.distance(&m, &**s, &*gx), d.contact(&m, &**s, &*gx, 1.0).ok().flatten().map(|c| c.dist), m); } }
+                        let dmin = minf(ps.iter().filter_map(|(pp, s)| d.distance(&pp.as_ref().inv_mul(&pos_cx), &**s, &*gx).ok()));
+                        if bf && !got && dmin.map(|x| x > 1.0e-9).unwrap_or(false) { return format!("{} ; X ; tie {}", b(got), fo(dmin)); }
+                        format!("{} ; {} ; tie {}", b(got), b(bf), fo(tie))
+                    }
+                    "composite2_cp" => {
+                        let margin = a.f();
+                        let got = match query::closest_points(p1, g1, p2, g2, margin) { Ok(v) => v, Err(_) => return "unsupported ; unsupported".into() };
+                        let gk = fcp(&got, &Isometry::identity());
+                        let mut best: (u8, f64) = (2, 0.0);
+                        for (pp, s) in &ps {
+                            let m = pp.as_ref().inv_mul(&pos_cx);
+                            if let Ok(r) = d.closest_points(&m, &**s, &*gx, margin) {
+                                let k = fcp(&r, &m);
+                                if k.0 == 0 { best = (0, 0.0); break; }
+                                if k.0 == 1 && (best.0 == 2 || k.1 < best.1) { best = k; }
+                            }
+                        }
+                        format!("{} ; {} ; lim {}", fcps(gk), fcps(best), ff(margin))
+                    }
+                    "composite2_contact" => {
+                        let pred = a.f();
+                        let got = match query::contact(p1, g1, p2, g2, pred) { Ok(v) => v, Err(_) => return "unsupported ; unsupported".into() };
+                        let bf = minf(ps.iter().filter_map(|(pp, s)| d.contact(&pp.as_ref().inv_mul(&pos_cx), &**s, &*gx, pred).ok().flatten().map(|c| c.dist)));
+                        format!("{} ; {} ; lim {}", fo(got.map(|c| c.dist)), fo(bf), ff(pred))
+                    }
+                    _ => {
+                        let vel12 = d2::v(a); let max_toi = a.f(); let target = a.f(); let stop = a.b();
+                        let opts = ShapeCastOptions { max_time_of_impact: max_toi, target_distance: target, stop_at_penetration: stop, compute_impact_geometry_on_penetration: true };
+                        let got = match d.cast_shapes(&pos12, &vel12, g1, g2, opts) { Ok(v) => v, Err(_) => return "unsupported ; unsupported".into() };
+                        let vel_cx = if first { vel12 } else { -pos12.inverse_transform_vector(&vel12) };
+                        let bf = minf(ps.iter().filter_map(|(pp, s)| {
+                            let r = match pp { Some(pp) => d.cast_shapes(&pp.inv_mul(&pos_cx), &pp.inverse_transform_vector(&vel_cx), &**s, &*gx, opts),
+                                               None => d.cast_shapes(&pos_cx, &vel_cx, &**s, &*gx, opts) };
+                            if std::env::var("VERIF_DBG").is_ok() { eprintln!("part {:?} -> {:?}  (pos_cx {:?} vel_cx {:?} aabb {:?})", s.as_segment(), r, pos_cx, vel_cx, gx.compute_aabb(&pos_cx)); }
+                            r.ok().flatten().map(|h| h.time_of_impact) }));
+                        format!("{} ; {} ; lim {}", fo(got.map(|h| h.time_of_impact)), fo(bf), ff(max_toi))
+                    }
+                }
+            }
+            "composite2_ray" => {
+                let ray = Ray::new(d2::p(a), d2::v(a)); let max_toi = a.f(); let solid = a.b();
+                let got = gc.cast_ray(&pc, &ray, max_toi, solid);
+                let got_n = gc.cast_ray_and_get_normal(&pc, &ray, max_toi, solid).map(|i| i.time_of_impact);
+                let ls = ray.inverse_transform_by(&pc);
+                let bf = minf(ps.iter().filter_map(|(pp, s)| match pp { Some(pp) => s.cast_ray(pp, &ls, max_toi, solid), None => s.cast_local_ray(&ls, max_toi, solid) }));
+                format!("{} {} ; {} {} ; lim {}", fo(got), fo(got_n), fo(bf), fo(bf), ff(max_toi))
+            }
+            "composite2_point" => {
+                let pt = d2::p(a); let solid = a.b();
+                let lp = pc.inverse_transform_point(&pt);
+                let got = gc.project_local_point(&lp, solid);
+                let gd = na::distance(&lp, &got.point);
+                let contains = gc.contains_local_point(&lp);
+                let bf = minf(ps.iter().map(|(pp, s)| { let pr = match pp { Some(pp) => s.project_point(pp, &lp, solid), None => s.project_local_point(&lp, solid) }; na::distance(&lp, &pr.point) }));
+                let bc = ps.iter().any(|(pp, s)| match pp { Some(pp) => s.contains_point(pp, &lp), None => s.contains_local_point(&lp) });
+                let bd = minf(ps.iter().map(|(pp, s)| { let pr = match pp { Some(pp) => s.project_point(pp, &lp, false), None => s.project_local_point(&lp, false) }; na::distance(&lp, &pr.point) }));
+                let cmp_contains = matches!(c, Co2::Compound(_));
+                format!("v {} {} ; {} {} ; tie {}", ff(gd), if cmp_contains { b(contains) } else { "-" }, fo(bf), if cmp_contains { b(bc) } else { "-" }, fo(bd))
+            }
+            _ => "nofn".into(),
+        }
+    }
+
+    fn rot(r: &mut Rng, lat: bool) -> na::UnitComplex<Real> { let (re, im) = d2::gen_rot(r, lat); na::Unit::new_unchecked(na::Complex::new(re, im)) }
+    fn gen_part(r: &mut Rng, lat: bool, kind: u64) -> Sh2 {
+        match kind {
+            0 => Sh2::Cuboid(Vector::new(0.5, 0.5)),
+            1 => Sh2::Ball(0.5),
+            2 => Sh2::Capsule(Point::new(-0.25, 0.0), Point::new(0.25, 0.0), 0.25),
+            3 => Sh2::Cuboid(Vector::new(r.pos_extent(lat).min(1.0), 0.25)),
+            _ => Sh2::Segment(Point::new(-0.5, 0.0), Point::new(0.5, 0.25)),
+        }
+    }
+    fn gen_compound(r: &mut Rng, lat: bool) -> Co2 {
+        let n = 5 + r.below(36) as usize;
+        let kind = r.below(6); let layout = r.below(3); let pitch = *r.pick(&[1.5, 2.0, 3.0]);
+        let mut ps = Vec::new();
+        for k in 0..n {
+            let t = match layout { 0 => Vector::new(pitch * k as f64, 0.0), 1 => Vector::new(pitch * (k % 5) as f64, pitch * (k / 5) as f64), _ => d2::gen_v(r, lat, 10.0) };
+            let ql = lat || r.bool();
+            let m = Isometry::from_parts(na::Translation2::from(t), rot(r, ql));
+            let kk = if kind == 5 { r.below(5) } else { kind };
+            ps.push((gen_part(r, lat, kk), m));
+            if r.below(12) == 0 { let last = ps.last().unwrap().clone(); ps.push(last); }
+        }
+        Co2::Compound(ps)
+    }
+    fn gen_polyline(r: &mut Rng, lat: bool) -> Co2 {
+        let n = 6 + r.below(30) as usize;
+        let mut vs = Vec::new(); let mut p = Point::new(0.0, 0.0);
+        for k in 0..n {
+            vs.push(p);
+            let step = if lat { Vector::new(*r.pick(&[0.5, 1.0]), *r.pick(&[-1.0, 0.0, 0.5, 1.0])) } else { Vector::new(r.uniform(0.2, 1.5), r.uniform(-1.0, 1.0)) };
+            p += step * if k % 7 == 6 { 3.0 } else { 1.0 };
+        }
+        Co2::Polyline(vs)
+    }
+    fn gen_heightfield(r: &mut Rng, lat: bool) -> Co2 {
+        let n = 3 + r.below(12) as usize;
+        let flat = r.below(4) == 0;
+        let hs = (0..n).map(|_| if flat { 0.5 } else if lat { r.range(-4, 4) as f64 * 0.25 } else { r.uniform(-1.0, 1.0) }).collect();
+        let sc = if lat { Vector::new(*r.pick(&[4.0, 8.0, 16.0]), *r.pick(&[1.0, 2.0])) } else { Vector::new(r.uniform(4.0, 20.0), r.uniform(0.5, 3.0)) };
+        Co2::HeightField(hs, sc)
+    }
+    fn gen_other(r: &mut Rng, lat: bool) -> Sh2 {
+        match r.below(6) {
+            0 => Sh2::Ball(r.pos_extent(lat).min(3.0)),
+            1 => Sh2::Cuboid(Vector::new(*r.pick(&[0.6, 1.5, 3.0, 6.0]), 0.6)),
+            2 => Sh2::Cuboid(Vector::new(0.6, *r.pick(&[1.5, 3.0, 6.0]))),
+            3 => { let l = *r.pick(&[0.5, 2.0, 5.0]); Sh2::Capsule(Point::new(-l, 0.0), Point::new(l, 0.0), *r.pick(&[0.25, 0.5])) }
+            4 => loop { let (p, q, s) = (d2::gen_p(r, lat, 2.0), d2::gen_p(r, lat, 2.0), d2::gen_p(r, lat, 2.0));
+                        if (q - p).perp(&(s - p)).abs() > 1e-3 { break Sh2::Triangle(p, q, s); } },
+            _ => Sh2::Cuboid(d2::gen_he(r, lat)),
+        }
+    }
+    fn gen_rel_pose(r: &mut Rng, lat: bool, c: &Co2) -> Isometry<Real> {
+        let bx = dynco(c).compute_local_aabb();
+        let anchor = match c {
+            Co2::Compound(ps) => ps[r.below(ps.len() as u64) as usize].1.translation.vector,
+            Co2::Polyline(vs) => vs[r.below(vs.len() as u64) as usize].coords,
+            Co2::HeightField(..) => Vector::new(r.uniform(bx.mins.x, bx.maxs.x), r.uniform(bx.mins.y, bx.maxs.y)),
+        };
+        let off = if lat { Vector::new(*r.pick(&[-3.0, -1.5, -0.9, -0.5, 0.0, 0.1, 0.5, 0.9, 1.5, 3.0]), *r.pick(&[-1.5, -0.5, 0.0, 0.1, 0.5, 1.5])) } else { d2::gen_v(r, false, 3.0) };
+        let far = if r.below(10) == 0 { d2::gen_v(r, lat, 30.0) } else { Vector::zeros() };
+        let rt = if r.below(3) == 0 { na::UnitComplex::identity() } else { rot(r, lat) };
+        Isometry::from_parts(na::Translation2::from(anchor + off + far), rt)
+    }
+
+    pub fn gen(r: &mut Rng, thorough: bool) -> Vec<(String, String)> {
+        let mut v = Vec::new();
+        let n = if thorough { 600 } else { 80 };
+        for it in 0..n {
+            let lat = it % 2 == 0;
+            let c = match it % 4 { 0 | 1 => gen_compound(r, lat), 2 => gen_polyline(r, lat), _ => gen_heightfield(r, lat) };
+            let is_hf = matches!(c, Co2::HeightField(..));
+            let world = if r.below(3) == 0 { Isometry::identity() } else { d2::gen_iso(r, lat, 20.0) };
+            let hc = format!("{} {}", hco(&c), d2::hiso(&world));
+            for _ in 0..3 {
+                let x = gen_other(r, lat);
+                let rel = gen_rel_pose(r, lat, &c);
+                let px = world * rel;
+                let hx_ = format!("{} {}", hsh(&x), d2::hiso(&px));
+                for first in [true, false] {
+                    let base = format!("{} {} {}", hc, hx_, b(first));
+                    if !is_hf {
+                        v.push(("composite2_distance".into(), base.clone()));
+                        v.push(("composite2_it".into(), base.clone()));
+                        let par = if lat { *r.pick(&[0.0, 0.25, 0.5, 1.0, 4.0]) } else { r.logu(1e-3, 1e2) };
+                        v.push(("composite2_cp".into(), format!("{} {}", base, hx(par + if r.bool() { 5.0 } else { 0.0 }))));
+                        v.push(("composite2_contact".into(), format!("{} {}", base, hx(par))));
+                    }
+                    let vel = if r.bool() && rel.translation.vector.norm() > 1e-3 { -rel.translation.vector.normalize() * r.pos_extent(lat) + d2::gen_v(r, lat, 0.5) } else { d2::gen_v(r, lat, 3.0) };
+                    let vel = if first { vel } else { -(rel.inverse_transform_vector(&vel)) };
+                    let max_toi = if r.below(4) == 0 { *r.pick(&[0.5, 2.0]) } else { 1.0e3 };
+                    let target = if r.below(3) == 0 { *r.pick(&[0.25, 0.5]) } else { 0.0 };
+                    v.push(("composite2_cast".into(), format!("{} {} {} {} {}", base, d2::hv(&vel), hx(max_toi), hx(target), b(r.bool()))));
+                }
+            }
+            let bx = dynco(&c).compute_local_aabb();
+            for _ in 0..4 {
+                let tgt = Point::new(r.uniform(bx.mins.x, bx.maxs.x), r.uniform(bx.mins.y, bx.maxs.y));
+                let org = if r.below(4) == 0 { tgt } else { tgt + d2::gen_v(r, lat, 8.0) };
+                let dir = if r.below(4) == 0 { let mut dd = Vector::zeros(); dd[r.below(2) as usize] = if r.bool() { 1.0 } else { -2.0 }; dd } else { (tgt - org) * *r.pick(&[0.5, 1.0, 3.0]) + d2::gen_v(r, lat, 0.25) };
+                if dir.norm() < 1e-6 { continue; }
+                let max_toi = if r.below(4) == 0 { *r.pick(&[0.25, 1.0]) } else { 1.0e3 };
+                v.push(("composite2_ray".into(), format!("{} {} {} {} {}", hc, d2::hp(&(world * org)), d2::hv(&(world * dir)), hx(max_toi), b(r.bool()))));
+                let pt = if r.bool() { tgt } else { tgt + d2::gen_v(r, lat, 4.0) };
+                v.push(("composite2_point".into(), format!("{} {} {}", hc, d2::hp(&(world * pt)), b(r.bool()))));
+            }
+        }
+        v
+    }
 }
